@@ -110,7 +110,6 @@ def observe(T, inputs):
         except TypeError:
             obs["hash"] = "unhashable"
         names = [f._name for f in T.__fields__]
-        obs["init_names"] = tuple(T.__init__.__code__.co_varnames[: T.__init__.__code__.co_argcount])
         if names and T.__fields__[0].type.__name__ == "uint8":
             k = T(**{names[0]: 3})
             obs["kw"] = repr(impl.norm(k))
@@ -347,7 +346,7 @@ def meta(tier):
         "12 representatives; thorough 3/4) and EVERY way of splitting it into consecutive commit steps (single add_field or start_update batch), on a "
         "pre-registered empty structure as the parser creates it (compiled if requested), under both readers and both layouts: after every commit the "
         "class is compared with the structure declared in one piece with the same fields - layout signature, compiled flag, parse results incl. "
-        "recorded sizes and consumed bytes at stream offsets 0 and 1, dumps, default construction, ==/hash/bool, __init__ parameters, keyword "
+        "recorded sizes and consumed bytes at stream offsets 0 and 1, dumps, default construction, ==/hash/bool, keyword "
         "construction; plus self-referential structures vs a void* twin (3 pointer widths) and repeated padding names; non-trivial = states reached "
         "by more than one commit step",
         "bounds": {"sequences": "D(core,2)+D(12 reps,3)" if tier == "quick" else "D(core,3)+D(12 reps,4)", "splits": "all 2^(m-1)"},
